@@ -1,6 +1,7 @@
 import TflModel.Model.Wire
 import TflModel.Model.Asserts
 import TflModel.Driver.Linear
+import TflModel.Driver.PwlEval
 namespace Tfl.Driver.Asserts
 open Tfl Tfl.Wire Tfl.Poset Tfl.Asserts Tfl.Driver.Linear
 
@@ -55,6 +56,39 @@ def handlers : List (String × Handler) := [
       let lo ← parseOptRat lo; let hi ← parseOptRat hi; let w ← parseRats w; let scale ← parseRats scale
       let eps ← parseRat eps
       pure (showBool (acceptsKfl ls dims terms monos lo hi (nest3 dims terms w) scale eps))
+    | _ => none),
+  -- layer level: the whole units-column kernel, columns separated by `;`
+  ("as.catL", fun args => match args with
+    | [lo, hi, cs, cols, eps] => do
+      let lo ← parseOptRat lo; let hi ← parseOptRat hi; let cs ← parsePairs cs
+      let cols ← parseList2 parseRat cols; let eps ← parseRat eps
+      pure (showBool (acceptsCategoricalLayer lo hi cs cols eps))
+    | _ => none),
+  ("as.linL", fun args => match args with
+    | [m, md, rd, lo, hi, ord, cols, eps] => do
+      let m ← parseInts m; let md ← parsePairs md; let rd ← parsePairs rd
+      let lo ← parseOptRats lo; let hi ← parseOptRats hi; let ord ← parseOrd ord
+      let cols ← parseList2 parseRat cols; let eps ← parseRat eps
+      pure (showBool (acceptsLinearLayer m md rd lo hi ord cols eps))
+    | _ => none),
+  ("as.pwlL", fun args => match args with
+    | [mono, lo, hi, cmin, cmax, assertMissing, learned, cyclic, impute, miv, kps, cols, mouts, eps] => do
+      let mono ← mono.toInt?; let lo ← parseOptRat lo; let hi ← parseOptRat hi
+      let cmin ← parseBool cmin; let cmax ← parseBool cmax; let assertMissing ← parseBool assertMissing
+      let learned ← parseBool learned; let cyclic ← parseBool cyclic; let impute ← parseBool impute
+      let miv ← parseOptRat miv; let kps ← parseRats kps; let cols ← parseList2 parseRat cols
+      let mouts ← parseRats mouts; let eps ← parseRat eps
+      let cfg := Tfl.Driver.PwlEval.mkCfg kps learned cyclic impute miv
+      pure (showBool (acceptsPwlLayer mono lo hi cmin cmax assertMissing cfg cols mouts eps))
+    | _ => none),
+  ("as.kflL", fun args => match args with
+    | [ls, dims, terms, monos, lo, hi, ws, scales, eps] => do
+      let ls ← ls.toNat?; let dims ← dims.toNat?; let terms ← terms.toNat?; let monos ← parseInts monos
+      let lo ← parseOptRat lo; let hi ← parseOptRat hi; let ws ← parseList2 parseRat ws
+      let scales ← parseList2 parseRat scales; let eps ← parseRat eps
+      if ws.length ≠ scales.length then none
+      else pure (showBool (acceptsKflLayer ls dims terms monos lo hi
+        (List.zip (ws.map (nest3 dims terms)) scales) eps))
     | _ => none)
 ]
 end Tfl.Driver.Asserts
